@@ -108,6 +108,7 @@ package vm
 //@   loop 0 invariant counted [C11 C16]: uint64(len(indices)) == rangecount(0) && cap(indices) == len(k.childrenIndex)
 //@   loop 0 invariant members [C11 C16]: forall j uint64 :: j < uint64(len(indices)) ==> has(k.childrenIndex, indices[j]) && rangeseen(0, indices[j])
 //@   loop 0 invariant distinct [C11 C16]: forall i uint64, j uint64 :: i < j && j < uint64(len(indices)) ==> indices[i] != indices[j]
+//@   ensures base-slice [C11 C16]: off(out) == 0
 //@   ensures every-key-once [C11 C16]: len(out) == len(k.childrenIndex) && (forall j uint64 :: j < uint64(len(out)) ==> has(k.childrenIndex, out[j]))
 //@   ensures ascending [C11 C16]: forall i uint64, j uint64 :: i <= j && j < uint64(len(out)) ==> strle(out[i], out[j])
 //@   ensures pairwise-distinct [C11 C16]: forall i uint64, j uint64 :: i < j && j < uint64(len(out)) ==> out[i] != out[j]
@@ -119,17 +120,19 @@ package vm
 //@   safety [C03]
 //@   requires recv: k != nil
 //@   loop 0 invariant mapped [C11 C16]: len(res) == rangeindex + 1 && rangeindex + 1 <= len(indices) && (forall j uint64 :: j < uint64(len(res)) ==> res[j] == k.childrenIndex[indices[j]])
-//@   ensures one-per-index-key [C11 C16]: len(out) == len(k.childrenIndex) && (forall j uint64 :: j < uint64(len(out)) ==> out[j] == k.childrenIndex[indices[j]])
-//@   ensures in-index-order [C11 C16]: forall j uint64 :: j < uint64(len(out)) && j + 1 < uint64(len(out)) ==> strle(indices[j], indices[j+1]) && indices[j] != indices[j+1]
+//@   ensures one-per-index-key [C11 C16 local]: len(out) == len(k.childrenIndex) && (forall j uint64 :: j < uint64(len(out)) ==> has(k.childrenIndex, indices[j]) && out[j] == k.childrenIndex[indices[j]])
+//@   ensures in-index-order [C11 C16 local]: (forall i uint64, j uint64 :: i <= j && j < uint64(len(out)) ==> strle(indices[i], indices[j])) && (forall i uint64, j uint64 :: i < j && j < uint64(len(out)) ==> indices[i] != indices[j])
+//@   ensures as-many-as-keys [C11 C16]: len(out) == len(k.childrenIndex)
 //@ end
 
 //@ func (*vm.StorageKey).ChildrenIndices(k) (out)
 //@   verify
 //@   safety [C03]
 //@   requires recv: k != nil
-//@   loop 0 invariant mapped [C11 C16]: len(res) == rangeindex + 1 && rangeindex + 1 <= len(indices) && cap(res) == len(indices) && (forall j uint64 :: j < uint64(len(res)) ==> allocated(res[j]) && strof(res[j]) == indices[j])
-//@   ensures one-per-index-key [C11 C16]: len(out) == len(k.childrenIndex) && (forall j uint64 :: j < uint64(len(out)) ==> has(k.childrenIndex, indices[j]) && strof(out[j]) == indices[j])
-//@   ensures in-index-order [C11 C16]: forall j uint64 :: j < uint64(len(out)) && j + 1 < uint64(len(out)) ==> strle(indices[j], indices[j+1]) && indices[j] != indices[j+1]
+//@   loop 0 invariant mapped [C11 C16]: len(res) == rangeindex + 1 && rangeindex + 1 <= len(indices) && cap(res) == len(indices) && (forall j uint64 :: j < uint64(len(res)) ==> allocated(res[j])) && (forall j uint64 :: j < uint64(len(res)) ==> strof(res[j]) == indices[j])
+//@   ensures every-key-once [C11 C16]: len(out) == len(k.childrenIndex) && (forall j uint64 :: j < uint64(len(out)) ==> has(k.childrenIndex, strof(out[j])))
+//@   ensures ascending [C11 C16]: forall i uint64, j uint64 :: i <= j && j < uint64(len(out)) ==> strle(strof(out[i]), strof(out[j]))
+//@   ensures pairwise-distinct [C11 C16]: forall i uint64, j uint64 :: i < j && j < uint64(len(out)) ==> strof(out[i]) != strof(out[j])
 //@ end
 
 //@ func (*vm.StateChanges).saveBalance(s, account, newBalance, callIdx)
@@ -276,8 +279,8 @@ package vm
 //@   oncall (*vm.StorageKey).ChildrenIndices : listed = listed + 1 ; of = $0
 //@   let first = s.roots[account].childrenIndex[stateVarName]
 //@   ensures unknown-is-nil [C11]: s.roots[account] == nil || first == nil ==> out == nil && listed == 0
-//@   ensures lists-the-named-key [C11 C16]: s.roots[account] != nil && first != nil && len(indices) == 0 ==> listed == 1 && of == first
-//@   ensures lists-the-indexed-key [C11 C16]: s.roots[account] != nil && first != nil && len(indices) == 1 && first.childrenIndex[strof(indices[0])] != nil ==> listed == 1 && of == first.childrenIndex[strof(indices[0])]
+//@   ensures lists-the-named-key [C11]: s.roots[account] != nil && first != nil && len(indices) == 0 ==> listed == 1 && of == first
+//@   ensures lists-the-indexed-key [C11]: s.roots[account] != nil && first != nil && len(indices) == 1 && first.childrenIndex[strof(indices[0])] != nil ==> listed == 1 && of == first.childrenIndex[strof(indices[0])]
 //@ end
 
 // C07 views: the index list mirrors Children position by position
@@ -335,8 +338,8 @@ package vm
 //@   ensures count [C07]: c.count == old(c.count) + 1
 //@   ensures pushed [C03 C07 C08 C10]: c.current != nil && fresh(c.current) && c.current == c.lookup[old(c.count)] && c.current.Index == old(c.count) && c.current.Parent == old(c.current)
 //@   ensures recorded [C08]: c.current.From == from && c.current.To == to && sameslice(c.current.Data, data) && c.current.Value == value && c.current.Gas == gas && c.current.Ret == nil && c.current.Err == nil && len(c.current.Children) == 0
-//@   ensures earlier-children-kept [C07 C08]: old(c.current) != nil ==> (forall k uint64 :: k < uint64(old(len(c.current.Children))) ==> old(c.current).Children[k] == old(c.current.Children[k]))
-//@   ensures other-nodes-children-headers-kept [C07]: forall i uint64 :: i < old(c.count) && c.lookup[i] != old(c.current) ==> sameslice(c.lookup[i].Children, old(c.lookup[i].Children))
+//@   ensures earlier-children-kept [C07 C08 local]: old(c.current) != nil ==> (forall k uint64 :: k < uint64(old(len(c.current.Children))) ==> old(c.current).Children[k] == old(c.current.Children[k]))
+//@   ensures other-nodes-children-headers-kept [C07 local]: forall i uint64 :: i < old(c.count) && c.lookup[i] != old(c.current) ==> sameslice(c.lookup[i].Children, old(c.lookup[i].Children))
 //@   ensures appended [C07 C08]: old(c.current) != nil ==> len(old(c.current).Children) == old(len(c.current.Children)) + 1 && old(c.current).Children[old(len(c.current.Children))] == c.current
 //@   modifies vm.CallTree.root, vm.CallTree.current, vm.CallTree.count, map:map[uint64]*vm.Call, vm.Call.Children, cell:*vm.Call
 //@ end
@@ -443,20 +446,22 @@ package vm
 //@ func vm.NewTracer() (out)
 //@   verify
 //@   safety [C03]
-//@   ensures fresh-parts [C07 C10 C17]: out != nil && fresh(out) && out.states != nil && fresh(out.states) && out.callTree != nil && fresh(out.callTree)
+//@   ensures fresh-parts: out != nil && fresh(out) && out.states != nil && fresh(out.states) && out.callTree != nil && fresh(out.callTree)
 //@   ensures starts-empty [C07]: out.callTree.count == 0 && out.callTree.root == nil && out.callTree.current == nil && (forall i uint64 :: !has(out.callTree.lookup, i))
 //@ end
 
 //@ func vm.NewStateChanges() (out)
 //@   verify
 //@   safety [C03]
-//@   ensures starts-empty [C10 C11 C17]: out != nil && fresh(out) && out.roots != nil && fresh(out.roots) && out.index != nil && fresh(out.index) && out.raw != nil && fresh(out.raw) && (forall a addr :: !has(out.roots, a) && !has(out.index, a) && !has(out.raw, a))
+//@   ensures fresh: out != nil && fresh(out)
+//@   ensures starts-empty [C10 C11 C17]: out.roots != nil && fresh(out.roots) && out.index != nil && fresh(out.index) && out.raw != nil && fresh(out.raw) && (forall a addr :: !has(out.roots, a) && !has(out.index, a) && !has(out.raw, a))
 //@ end
 
 //@ func vm.NewCallTree() (out)
 //@   verify
 //@   safety [C03]
-//@   ensures starts-empty [C07 C17]: out != nil && fresh(out) && out.count == 0 && out.root == nil && out.current == nil && out.lookup != nil && fresh(out.lookup) && (forall i uint64 :: !has(out.lookup, i))
+//@   ensures fresh: out != nil && fresh(out)
+//@   ensures starts-empty [C07 C17]: out.count == 0 && out.root == nil && out.current == nil && out.lookup != nil && fresh(out.lookup) && (forall i uint64 :: !has(out.lookup, i))
 //@   ensures starts-well-formed [C07]: wfIndex(out) && wfDense(out) && wfParent(out) && wfCursor(out)
 //@ end
 
